@@ -87,3 +87,6 @@ BOUNDS = ["<= 2 cuts, <= 5 rows per scaffold, <= 2 input scaffolds; all lengths,
 OUTSIDE = ["more cuts / rows / scaffolds", "the texel grid is over-approximated by integer consequences (DESIGN section 4); counterexamples not realisable on a real grid are reported as inconclusive, not as violations",
            "contig strand 0 (unknown)"]
 TRUSTED = ["CrossHair/z3", "integer abstraction of the PretextView model", "Fragment.key_tuple -> (name, id) stub", "Texel object standing for the float bp_per_texel (floor = tf, ceil = tf + fr)", "loader cuts"]
+
+TECHNIQUE = ("symbolic execution of the real remapping pipeline (CrossHair + z3) on PretextView-model maps with an integer abstraction of the texel grid; counterexamples filtered by an exact grid-realisability search")
+LEVEL_TEXT = ("All cut positions, lengths, roundings, strands and texel sizes of each template are decided at once; the 3x(1+floor(t)) margin and the exact split position are asserted symbolically, which is where threshold/off-by-one bugs live.")
